@@ -120,22 +120,34 @@ class C24(core.Check):
         return xstore.extract()
 
     # ---- cases
-    def corpus(self):
+    def witnesses(self):
+        """replays of the recorded known findings (theorems refines_dict_fails_without_guard / getLast_fails_without_guard);
+        appended at the END of the generated cases so that a new violation on a clean case is the one reported first"""
         k = b"k"
         k2 = k + b"." + st.hexw(0)
-        h1 = k + b"." + st.hexw(1)
-        cs = [
-            # F39 witness (Props: refines_dict_fails_without_guard): three values, then a key that looks like entry 0
+        return [
             ("io", [("add", k, b"v0"), ("add", k, b"v1"), ("add", k, b"v2"), ("add", k2, b"w0"), ("get", k), ("cnt", k),
                     ("add", k, b"v3"), ("get", k), ("items",)]),
             ("ioset", [("put", k, [b"v0", b"v1", b"v2"]), ("add", k2, b"w0"), ("add", k, b"v1"), ("get", k), ("last", k), ("rem", k), ("items",)]),
             ("io", [("add", k, b"a"), ("add", k, b"b"), ("pop", k), ("add", k2, b"w"), ("get", k), ("first", k), ("pop", k)]),
-            # benign relatives
-            ("io", [("add", b"a", b"1"), ("add", b"a.b", b"2"), ("add", b"a.", b"3"), ("add", b"", b"4"), ("add", b"a-", b"5"), ("add", b"a/", b"6"),
-                    ("get", b"a"), ("last", b"a"), ("last", b""), ("last", b"a/"), ("pop", b"a"), ("last", b"a"), ("rem", b"a."), ("items",)]),
-            ("io", [("put", k, [b"x", b"x", b"y"]), ("pin", k, [b"z"]), ("put", h1, []), ("pin", h1, []), ("cnt", k), ("last", k), ("first", k), ("iter", k)]),
+            ("io", [("add", b"a", b"1"), ("add", b"a.b", b"2"), ("last", b"a")]),
+        ]
+
+    def corpus(self):
+        k = b"k"
+        h1 = k + b"." + st.hexw(1)
+        many = [("put", k, [b"v%d" % (3 * i + j) for j in range(3)]) for i in range(7)]
+        cs = [
+            # relatives of the F39 key shape that are harmless
+            ("io", [("add", b"a", b"1"), ("add", b"a-b", b"2"), ("add", b"a.", b"3"), ("add", b"", b"4"), ("add", b"a-", b"5"), ("add", b"a/", b"6"),
+                    ("get", b"a"), ("last", b"a/"), ("last", b""), ("pop", b"a"), ("last", b"a-"), ("rem", b"a."), ("items",)]),
+            ("io", [("put", k, [b"x", b"x", b"y"]), ("pin", k, [b"z"]), ("put", h1, []), ("pin", h1, []), ("cnt", k), ("last", k), ("first", k), ("iter", k),
+                    ("pin", k, []), ("get", k), ("last", k)]),
             ("ioset", [("put", k, [b"x", b"x", b"y"]), ("add", k, b"x"), ("remv", k, b"x"), ("add", k, b"x"), ("get", k), ("remv", k, b""), ("get", k),
-                       ("pin", k, [b"q", b"q", b"r"]), ("put", k, [b"r", b"s", b"s"]), ("get", k), ("remv", k, b"nope")]),
+                       ("pin", k, [b"q", b"q", b"r"]), ("put", k, [b"r", b"s", b"s"]), ("get", k), ("remv", k, b"nope"), ("add", k, b"q"), ("add", k, b"s"), ("add", k, b"t")]),
+            # more than 16 values at one key: the ordinal carries into the next hex digit
+            ("io", many + [("get", k), ("cnt", k), ("last", k), ("pop", k), ("add", k, b"z"), ("get", k)]),
+            ("ioset", many + [("get", k), ("remv", k, b"v16"), ("add", k, b"v16"), ("last", k), ("get", k)]),
             ("plain", [("put", b"a", b"1"), ("put", b"a", b"2"), ("pin", b"a.b", b"3"), ("get", b"a"), ("rem", b"a"), ("rem", b"a"), ("get", b"a.b"), ("cnt",), ("items",)]),
             # outside the key space: error branches of the model (correspondence only)
             ("plain", [("put", b"", b"v"), ("get", b""), ("rem", b""), ("pin", b"x" * 512, b"v"), ("get", b"x" * 512), ("rem", b"x" * 512), ("put", b"x" * 511, b"v"), ("get", b"x" * 511)]),
@@ -167,7 +179,38 @@ class C24(core.Check):
         return out, "io/ioset: every history of <= 3 mutating ops over keys {k, k.<hex 0>, 'k.'} x values {v0,v1}; plain: every history of <= 3 ops over {a, 'a.', a.b}"
 
     def generate(self, rng, n, tier):
+        for case in self._generate(rng, n, tier):
+            yield case
+        for case in self.witnesses():
+            yield case
+
+    def _long(self, rng):
+        """one or two keys, enough values that ordinals pass 16 (hex carry), pops from the front in between"""
+        kind = rng.choice(["io", "ioset"])
+        keys = [rng.choice([b"k", b"a.b", b"", b"0"])] + ([b"kk"] if rng.random() < 0.3 else [])
+        ops, c = [], 0
+        while len(ops) < 26:
+            k = keys[0] if rng.random() < 0.85 else keys[-1]
+            r = rng.random()
+            if r < 0.6:
+                m = rng.choice([2, 3, 4, 5])
+                ops.append(("put", k, [b"w%d" % (c + j) for j in range(m)]))
+                c += m
+            elif r < 0.75:
+                ops.append(("add", k, b"w%d" % c))
+                c += 1
+            elif r < 0.9:
+                ops.append(("pop", k))
+            else:
+                ops.append((rng.choice(["last", "cnt", "first"]), k))
+        ops += [("get", keys[0]), ("last", keys[0]), ("cnt", keys[0]), ("pop", keys[0])]
+        return (kind, ops)
+
+    def _generate(self, rng, n, tier):
         for _ in range(n):
+            if rng.random() < 0.08:
+                yield self._long(rng)
+                continue
             kind = rng.choice(["io", "io", "ioset", "ioset", "plain"])
             keys = [k for k in st.adversarial_keys(rng, rng.choice([1, 2, 3, 3, 4, 4])) if legal(kind, k)] or [b"k"]
             vals = st.VALS24[:rng.choice([2, 3, 8])]
@@ -230,6 +273,8 @@ class C24(core.Check):
         kind, ops = case
         if kind not in ("io", "ioset"):
             return None
+        if any(isinstance(sn, tuple) and sn[:1] == ("raise",) for step in obs[0] for sn in (step[0],) + tuple(step[1])):
+            return None          # neither finding ever makes a method raise
         keys = st.c24_keys(ops)
         if [c for c in clauses if c != "last-result-differs-from-dict"]:
             # K1: a foreign key's entries can sort between ordinal 0 and a reachable ordinal of k
@@ -261,6 +306,11 @@ class C24(core.Check):
 
     def shrink(self, case):
         kind, ops = case
+        keys = st.c24_keys(ops)
+        simple = [b"a", b"b", b"c", b"d", b"e", b"f"]
+        if len(keys) <= len(simple) and any(k not in simple for k in keys):
+            ren = dict(zip(keys, simple))
+            yield (kind, [((o[0], ren[o[1]]) + tuple(o[2:])) if len(o) > 1 else o for o in ops])
         for i in range(len(ops)):
             yield (kind, ops[:i] + ops[i + 1:])
         for i, o in enumerate(ops):
